@@ -31,6 +31,8 @@ type World struct {
 	implCache map[string][]types.Type
 	allNamed []types.Type
 	LoadErrs []string
+	immut    map[string]bool
+	Mod      *ModInfo
 }
 
 const repoModule = "github.com/krotik/ecal"
@@ -237,6 +239,19 @@ func (w *World) typeOfExpr(pkgName string, ex ast.Expr) (types.Type, error) {
 		return w.typeOfExpr(pkgName, x.X)
 	}
 	return nil, fmt.Errorf("unsupported type expression")
+}
+
+// immutableArr: heap array of a field declared immutable (written only on objects that are
+// fresh in the writing activation; checked by frame:immutable obligations at every store).
+func (w *World) immutableArr(a string) bool {
+	if w.immut == nil {
+		w.immut = map[string]bool{}
+		w.Mod = w.computeModInfo()
+		for _, f := range w.Mod.immutableFields() {
+			w.immut[f] = true
+		}
+	}
+	return w.immut[a]
 }
 
 func fatalf(f string, a ...interface{}) {
